@@ -34,7 +34,10 @@ META = dict(
     rule="case = loop run (start instant, 1-3 sources static/removing/label, cron + one-shot + unparsable schedules with presence "
          "windows, listing latencies, kick latencies, failing listings / kicks; 4 % of the runs are long: 2-5 h or ~26 h with crons "
          "that recur on the same minute-of-hour / hour-of-day; 11 % carry groups of cron schedules that share one expression string and "
-         "differ in cron_offset - none / zone names / timedeltas - aimed so that the answers differ inside a group in one poll); non-trivial iff it crosses >= 3 minute boundaries "
+         "differ in cron_offset - none / zone names / timedeltas - aimed so that the answers differ inside a group in one poll; 8 % vary the "
+         "shape of the schedule payloads - args as list / tuple / deque / left out, nested values, kwargs / labels left out / empty / filled, "
+         "unknown label keys, cron_offset and aware / subclass datetimes on one-shots, one-shots with equal times, one label dict shared "
+         "by two tasks - with a label-source one-shot that fires >= 4 min before the end); non-trivial iff it crosses >= 3 minute boundaries "
          "with a cron both due and not due, >= 1 one-shot, >= 1 injected failure; distinct by canonical JSON",
     trusted_base=["model: coq/theories/SchedLoop.v (hand-written transcription of taskiq/cli/scheduler/run.py loop + system model)",
                   "exact virtual-time loop and datetime shim in harness/drivers/sched_driver.py (one clock for wall and monotonic time)",
@@ -503,6 +506,223 @@ def gen_zones(r, hours=False):
     return zonify(r, c, zfirst)
 
 
+# ------------------------------------------------------------------ payload shapes of the schedule entries
+NPAY = (40, 800)                          # runs whose entries vary the shape of the schedule payload: quick, thorough
+XVALS = [None, True, 0, -1, 2.5, "", "x", [], [1, [2, {"k": [3]}]], {"a": {"b": [1, 2]}}, {}, [[]], "2", 10**12]
+XKW = [{}, {}, {"k": 1}, {"k": [1, 2], "z": {"y": None}}, {"flag": False}, {"n": 0, "m": ""}]
+XLAB = [None, None, None, {}, {"x": 1}, {"prio": "high", "n": [1, 2]}, {"queue": ""}]
+XEXTRA = [{}, {}, {}, {"every": 60}, {"note": "x", "nested": {"a": [1]}}, {"enabled": True}, {"interval": None}]
+XNOISE = [{}, {"args": [1]}, {"every": 60}, {"labels": {"x": 1}}, {"kwargs": {"k": 1}, "cron_offset": "UTC"}]
+XTZ = [0, 120, -330, 345, 840, -720, 1]
+
+
+def gen_pay(r, src_kind, kind, carrier=None):
+    """the shape in which one schedule gives its payload.  The entry's number (how the driver recognises the schedule in
+    get_task_delay / delayed_send / kick) travels in args[0], kwargs["sid"] or labels["sid"] - or nowhere, when `carrier` is
+    "task" (the entry is alone in its task) - so that args / kwargs / labels can each be missing, empty, or nested."""
+    label = src_kind == "label"
+    car = carrier or r.choice(["args", "args", "args", "kwargs", "labels"])
+    shapes = ["list", "tuple", "tuple", "tuple", "deque"] + (["missing", "missing"] if label and car != "args" else [])
+    p = dict(carrier=car, args=r.choice(shapes))
+    p["xargs"] = [] if p["args"] == "missing" else [r.choice(XVALS) for _ in range(r.choice([0, 0, 0, 1, 2]))]
+    if car == "task" and r.random() < .5 and p["args"] != "missing":
+        p["xargs"] = [r.choice(XVALS[4:])] + p["xargs"]
+    p["kwargs"] = r.choice(([None, None] if label else []) + XKW)
+    p["labels"] = r.choice(XLAB)
+    p["extra"] = r.choice(XEXTRA) if label else {}
+    if kind == "one":
+        if r.random() < .25:
+            p["tz"] = r.choice(XTZ)
+        if r.random() < .15:
+            p["tcls"] = True
+    return p
+
+
+def payloadify(r, c):
+    """What the schedule ENTRIES look like, beyond their trigger: every loop run so far gave each schedule args = [n] (a list),
+    kwargs = {}, no labels of its own, and distinct one-shot times.  Here the entries of all sources carry varied payloads -
+    args as list / tuple / deque / left out, extra nested values, kwargs left out / empty / nested, a `labels` dict or none,
+    unknown keys, cron_offset on one-shots, aware times and datetime subclasses - the label source gets dicts that it skips
+    (neither cron nor time) between the real ones, several one-shots with EQUAL times (in different tasks; in one task under
+    the conditions in which 'remove the first trigger with this time' is right), and one dict object shared by the schedule
+    lists of two tasks.  One source of the run is a label source, and at least one of its one-shots with a payload that
+    pydantic coerces fires early enough for >= 3 later polls to show whether it is still there.  Applied to a gen_case run."""
+    start, end = c["start"], c["end"]
+    m0, m1 = start // MIN, end // MIN
+    srcs = c["sources"]
+    if not any(s["kind"] == "label" for s in srcs):      # one source becomes the label source
+        cand = [s for s in srcs if s["kind"] == "removing"] or srcs
+        s = r.choice(cand)
+        s["kind"] = "label"
+        for e in s["entries"]:
+            e["task"] = r.choice(["t0", "t1"])
+    li = [i for i, s in enumerate(srcs) if s["kind"] == "label"][0]
+    lab = srcs[li]
+    used_T = {e["T"] for s in srcs for e in s["entries"] if e["kind"] == "one"}
+    sid = [max(e["sid"] for s in srcs for e in s["entries"])]
+
+    def fresh_T(early):
+        hi = max(m0 + 1, m1 - 4) if early else m1 + 1
+        mm = r.randrange(m0, hi) * MIN
+        T = r.choice([mm, mm + 500_000, mm + US, mm - 1, mm + 1, mm + r.randrange(MIN), mm + r.randrange(MIN),
+                      start - r.randrange(1, 5 * MIN)])
+        while T in used_T:
+            T += 1
+        used_T.add(T)
+        return T
+
+    def window(p_add=.15, p_del=.1):
+        add = dele = None
+        if r.random() < p_add:
+            add = odd(r.randrange(start, end))
+        if r.random() < p_del:
+            dele = odd(r.randrange(add or start, end))
+            if add is not None and dele <= add:
+                dele = add + 2
+        return add, dele
+
+    def one(T, i, task=None, win=None, **kw):
+        sid[0] += 1
+        add, dele = win if win is not None else window()
+        e = dict(sid=sid[0], add=add, **{"del": dele}, kind="one", T=T)
+        if srcs[i]["kind"] == "label":
+            e["task"] = task or r.choice(["t0", "t1"])
+        e["pay"] = gen_pay(r, srcs[i]["kind"], "one", **kw)
+        srcs[i]["entries"].append(e)
+        return e
+
+    def kicks(i, e, p=.2, pf=.05):
+        for n in range(4):
+            k = r.random()
+            if k < p:
+                c["klat"]["%d:%d:%d" % (i, e["sid"], n)] = odd(r.randrange(0, 2 * US) if k < .9 * p else r.randrange(0, 70 * US))
+            if r.random() < pf:
+                c["kfail"].append([i, e["sid"], n])
+
+    # 1. existing entries: most get a payload shape
+    for i, s in enumerate(srcs):
+        for e in s["entries"]:
+            if r.random() < .7:
+                e["pay"] = gen_pay(r, s["kind"], e["kind"])
+            if e["kind"] == "one" and r.random() < .2:
+                e["off"] = r.choice([{"kind": "zone", "zone": r.choice(TZ_ZONES)}, {"kind": "td", "us": r.randrange(-600, 600) * MIN}])
+    # 2. one-shots of the label source that fire early in the run, payload in a shape that is not what ScheduledTask stores
+    for j in range(r.choice([1, 1, 2, 3])):
+        e = one(fresh_T(True), li, win=(None, None) if j == 0 else None)
+        if j == 0:
+            e["pay"]["args"] = r.choice(["tuple", "tuple", "deque"])
+            if e["pay"]["carrier"] != "args" and not e["pay"]["xargs"] and r.random() < .7:
+                e["pay"]["xargs"] = [r.choice(XVALS)]
+        kicks(li, e, pf=0 if j == 0 else .05)
+    # a few more anywhere
+    for _ in range(r.choice([0, 1, 2])):
+        i = r.randrange(len(srcs))
+        kicks(i, one(fresh_T(False), i))
+    # 3. an entry that carries no number at all (alone in its task)
+    if r.random() < .5:
+        i = r.randrange(len(srcs))
+        sid[0] += 1
+        add, dele = window()
+        if r.random() < .6:
+            e = dict(sid=sid[0], add=add, **{"del": dele}, kind="one", T=fresh_T(True))
+        else:
+            e = dict(sid=sid[0], add=add, **{"del": dele}, kind="cron", cron=r.choice(CRONS))
+        e["task"] = "solo%d" % e["sid"]
+        e["pay"] = gen_pay(r, srcs[i]["kind"], e["kind"], carrier="task")
+        srcs[i]["entries"].append(e)
+        kicks(i, e)
+    # 4. one-shots with EQUAL times
+    if r.random() < .55:
+        T = fresh_T(r.random() < .8)
+        G = r.choice([2, 2, 3])
+        if r.random() < .5:
+            # ... in ONE task of the label source.  The source removes "the first trigger of the task with this time", which is
+            # the sent one as long as the members are listed together, no send of theirs fails and their sends complete in
+            # list order - that is what is generated (a common presence window, kicks of a few microseconds in list order);
+            # other constellations are a matter of the label source's trigger identity, not of the loop (see notes/C15.md)
+            task, win = r.choice(["t0", "t1"]), window(.2, .1)
+            for j in range(G):
+                e = one(T, li, task=task, win=win, carrier=r.choice(["args", "args", "kwargs", "labels"]))
+                e["eq"] = "task"
+                for n in range(6):
+                    c["klat"]["%d:%d:%d" % (li, e["sid"], n)] = 1 + 2 * (n * G + j)
+        else:
+            # ... in different tasks / sources: no constraint
+            tasks = ["t0", "t1", "t2"]
+            r.shuffle(tasks)
+            for j in range(G):
+                i = li if j < 2 and r.random() < .7 else r.randrange(len(srcs))
+                e = one(T, i, task=tasks[j])
+                e["eq"] = "apart"
+                kicks(i, e, p=.4, pf=.1)
+    # 5. ONE dict object in the schedule lists of two tasks (each alone in its task: the dict cannot name both)
+    if r.random() < .4:
+        kind = "one" if r.random() < .7 else "cron"
+        trig = dict(T=fresh_T(True)) if kind == "one" else dict(cron=r.choice(CRONS))
+        pay = gen_pay(r, "label", kind, carrier="task")
+        pay["share"] = sid[0] + 1
+        for _ in range(2):
+            sid[0] += 1
+            add, dele = window(.1, .1)
+            e = dict(sid=sid[0], add=add, **{"del": dele}, kind=kind, task="solo%d" % sid[0], pay=dict(pay), **trig)
+            lab["entries"].append(e)
+            kicks(li, e)
+    # 6. dicts the label source skips, somewhere in the lists
+    if r.random() < .5:
+        names = sorted({e["task"] for e in lab["entries"]})
+        lab["noise"] = [[r.choice(names), r.randrange(4), r.choice(XNOISE)] for _ in range(r.choice([1, 2, 3]))]
+    for s in srcs:
+        if s["kind"] == "label":
+            s["entries"].sort(key=lambda e: (e["task"], e["add"] is not None, e["add"] or 0))
+        else:
+            s["entries"].sort(key=lambda e: (e["add"] is not None, e["add"] or 0))
+    c["family"] = "payload"
+    return c
+
+
+def gen_payload(r):
+    return payloadify(r, gen_case(r, long=r.random() < .05))
+
+
+def count_payload(rep, c, o):
+    """evidence distribution of the payload shapes"""
+    E = c["end"]
+    for i, s in enumerate(c["sources"]):
+        lab = ":label-source" if s["kind"] == "label" else ""
+        if s.get("noise"):
+            rep.count("payload:label-list-holds-dicts-without-cron-or-time", len(s["noise"]))
+        for e in s["entries"]:
+            p = e.get("pay")
+            if e["kind"] == "one" and e.get("off"):
+                rep.count("payload:one-shot-with-cron_offset" + lab)
+            if e.get("eq"):
+                rep.count("payload:one-shots-with-equal-times:" + ("same-task" if e["eq"] == "task" else "different-tasks-or-sources"))
+            if not p:
+                continue
+            rep.count("payload:args:" + p["args"] + lab)
+            if p["xargs"]:
+                rep.count("payload:args:extra-nested-values" + lab)
+            rep.count("payload:kwargs:" + ("missing" if p["kwargs"] is None else "empty" if not p["kwargs"] else "values") + lab)
+            rep.count("payload:labels:" + ("absent" if p["labels"] is None else "empty" if not p["labels"] else "values") + lab)
+            rep.count("payload:number-travels-in:" + p["carrier"] + lab)
+            if p.get("extra"):
+                rep.count("payload:unknown-keys" + lab)
+            if p.get("tz") is not None:
+                rep.count("payload:one-shot-time:aware-fixed-offset" + lab)
+            if p.get("tcls"):
+                rep.count("payload:one-shot-time:datetime-subclass" + lab)
+            if p.get("share") is not None:
+                rep.count("payload:dict-shared-by-two-tasks:members")
+            if e["kind"] == "one" and s["kind"] != "static":
+                # polls that ran after the first completed send of this one-shot: only they can show a trigger that was not removed
+                done = [at for at, si, sd in o["posts"] if si == i and sd == e["sid"]]
+                if done:
+                    later = sum(1 for q in o["polls"] if q["snaps"][i] is not None and q["snaps"][i] > min(done))
+                    coerced = p["args"] in ("tuple", "deque") or p.get("tcls")
+                    rep.count("payload:one-shot-sent:%s:later-polls-%s" % ("coerced-payload" if coerced else "payload-as-stored",
+                                                                           ">=3" if later >= 3 else "<3") + lab)
+
+
 def same_expr_groups(c):
     """groups of cron entries that share the expression string but not the cron_offset: [(expr, [(source, entry), ...])]"""
     by = {}
@@ -816,6 +1036,8 @@ def explore(ctx, rep, cases, label, shard=25, chunk=None):
                     rep.count("cron:recurs-on-same-minute-of-hour:" + ("fresh-ids" if skind == "label" else "stable-ids"))
                 if nocc >= 2 and same_hm:
                     rep.count("cron:recurs-on-same-hour-and-minute-next-day:" + ("fresh-ids" if skind == "label" else "stable-ids"))
+        if c.get("family") == "payload" or any(e.get("pay") for s in c["sources"] for e in s["entries"]):
+            count_payload(rep, c, o)
         rep.count("kicks", len(o["kicks"]))
         rep.count("kicks:failed", sum(1 for k in o["kicks"] if k[4] is False))
         for s in c["sources"]:
@@ -900,6 +1122,10 @@ def run(ctx):
     broken = explore(ctx, rep, [gen_zones(r4) for _ in range(nz)], "zones") or broken
     broken = explore(ctx, rep, [gen_zones(r4, hours=True) for _ in range(nzh)], "zones-hours", shard=1 if ctx.quick else 4,
                      chunk=1 if ctx.quick else None) or broken
+    # runs whose schedule entries vary the shape of their payload (args / kwargs / labels / unknown keys / equal times / shared
+    # dicts) - see payloadify
+    r5 = ctx.sub_rng("payload")
+    broken = explore(ctx, rep, [gen_payload(r5) for _ in range(ctx.n(*NPAY))], "payload") or broken
     unexplained = [f for f in rep.failures if not sig_d7(f)]
     if (broken or any(not o["ok"] for o in rep.obligations)) and not unexplained:
         r2 = ctx.sub_rng("search")
